@@ -12,6 +12,10 @@ CHECKS = {
     text="Differential symbolic execution of the library codec against ref/wabinary.py (independent encoder with explicit choice vector + decoder, frozen dictionary copy): every dictionary index both ways; ref_decode(lib_encode(t)) == t on the C01 families; lib_decode(ref_encode(t, choices)) == t for list16 / 20- and 31-bit length / literal / unpacked / no-JID / string-valued content choices; deflate checked with real zlib on every path witness.",
     note="Trusted: the reference implementation and its frozen dictionary copy (extracted once from the pinned commit; no network), engine models, z3. zlib is not encoded (concrete on witnesses).",
     technique="differential symbolic execution (library vs independent reference) with z3, concrete replay of every model"),
+ "C09": dict(cat="model_checking", design="4/C09",
+    text="For every entity class with a documented stanza (57 repository fixtures + hand-written templates for ~45 classes without fixture) the documented stanza becomes a template whose non-discriminator attributes are unconstrained z3 strings / integers (list children 0..3, optional attributes dropped); symbolic execution of fromProtocolTreeNode + toProtocolTreeNode must reproduce the template for all values (classes built from incoming stanzas), and stanzas of sendable classes (built through the constructor with symbolic arguments) must satisfy the codec's typing contract; every path witness also goes through the real encoder/decoder.",
+    note="Trusted: template catalogue (documented shapes, discriminators kept concrete, repeated fields tied, sibling jids distinct), engine string model (z3 Strings), z3. The protobuf payload of message stanzas is opaque here (C10).",
+    technique="symbolic execution of each entity class's parser/serialiser on stanza templates with z3 string/integer variables; concrete replay of every model"),
  "C05": dict(cat="model_checking", design="4/C05",
     text="Bounded symbolic execution of the real YowNoiseSegmentsLayer: frame lengths (1..2^24-1 each), payload contents and every chunk cut position are solver variables; z3 decides each path. Covers all streams of <=3 frames in <=3 chunks (quick) / <=4 frames in <=5 chunks (thorough), an inductive step from an arbitrary buffered prefix, and every outgoing length 0..2^25. Every path's model is replayed on the uninstrumented layer.",
     note="Trusted: CPython semantics of everything but the hooked constructs; sx engine models of struct.pack/unpack and bytearray slicing (self-validated); z3. Payload bytes are abstract (the layer only moves them). Longer streams rest on the step harness plus the checked assumption that the layer's only state is its read buffer.",
